@@ -121,10 +121,11 @@ EXTRA = {
  "C18": " Plus, with per-client statistics, W in-process Servers sharing one statistics queue of capacity 2W: every assignment of R hand-off rounds to the workers x every position of the single reporter pass.",
  "C19": " A second signal during the shutdown is an environment action too (controlled scenarios and sampled wall-clock runs): still exit 0.",
  "C09": " IETF pool requests also name [0, draft-13] in VER; a framed request naming only version 0 is among the rejected kinds.",
- "C10": " Certificate sequences also certify the same online key again for the same and the other protocol; half of the live restarts run with fault_percentage 50 (deliberately invalid replies parsed leniently: their CERT is a certificate too).",
+ "C10": " Certificate sequences also certify the same online key again for the same and the other protocol; the real server started from file and ENV with seeds whose hex spelling invites another reading (all digits, exponent form, upper case) announces and certifies with the written seed's key; half of the live restarts run with fault_percentage 50 (deliberately invalid replies parsed leniently: their CERT is a certificate too).",
  "C12": " The table runs in five server states (batch sizes 1/2/4 with groups filling the batch exactly; after a full batch of 64); lists of length <= 2 again with extra tags that move VER/SRV/NONC to other field positions.",
  "C13": " Verifier also over every message length 0..=4096 in 5-7 chunkings with bit flips, prefix signatures and extended messages; every sequence (depth 4, thorough 5) of update/verify operations on ONE verifier object against direct verification; every interleaving (depth 5, thorough 6) of update/sign on TWO signer objects on one thread.",
- "C16": " Observed behaviour: worker threads of the real server for written num_workers up to 2*CPUs+1, both sources.",
+ "C16": " Observed behaviour: worker threads of the real server for written num_workers up to 2*CPUs+1, both sources; share of deliberately invalid replies for written fault_percentage 0/10/25/49/50.",
+ "C04": " A fifth leaf family: request-sized leaves sharing a 640-byte prefix.",
  "C14": " Plus every sequence (length 2..=3, thorough 4) of decrypt operations (healthy / each provider fault / another provider / tampered copy) on one blob in one process, each step judged.",
  "C15": " A thread that never reaches another hook point is decided on the real process (held, then with every thread released): blocked for good = violation start-hang. Health histories include connections the peer aborts with RST before they are accepted.",
  "C17": " Plus the real Responder driven with return addresses send_to fails for: recorder totals vs datagrams that actually arrived, per batch; the traffic comparison also runs with fault_percentage 50.",
